@@ -22,9 +22,9 @@ def Trailer.bytes : Trailer → Bytes
   | .zeros bs => bs
   | .cut r n => (encRecord r).take n
 
-def Trailer.WF : Trailer → Prop
+def Trailer.WF (pre15 : Bool) : Trailer → Prop
   | .zeros bs => (bs.take 8).all (· == 0) = true
-  | .cut r n => r.WF ∧ 8 ≤ n ∧ n < r.totLen
+  | .cut r n => r.WF pre15 ∧ 8 ≤ n ∧ n < r.totLen
 
 /-- how a record was placed, with the log position of its first byte -/
 inductive Placed where
